@@ -9,7 +9,7 @@ from __future__ import annotations
 import random
 
 SIZES = [0, 1, 1, 2, 2, 2, 3, 3, 4, 6, None, None]
-CB_KINDS = [None, None, "s", "s", "a", "g", "sx", "ax", "gx"]
+CB_KINDS = [None, None, "s", "s", "a", "g", "sx", "ax", "gx", "sT"]
 CB_KINDS_SAFE = [None, "s", "a", "g"]
 POINTS = ["ws", "we", "wc", "ecb", "ccb", "it", "fa"]
 
@@ -24,8 +24,8 @@ BASE_W = {
 PROFILES = {
     "C01": {"w": {"spawn": 1.6, "cancel": 1.2, "flush": 0.8, "gate_c": 3.0}, "sizes": [0, 1, 1, 2, 2, 3, 4, None]},
     "C02": {"w": {"cancel": 1.6, "cancel_group": 1.4, "flush": 1.8, "gate_x": 2.0, "gate_c": 3.0}, "cb": CB_KINDS},
-    "C03": {"w": {"cancel": 1.8, "cancel_group": 1.4, "stop": 1.5, "flush": 1.2}, "cb": ["s", "a", "g", "g", "sx", None]},
-    "C04": {"w": {"spawn": 1.5, "lock": 3.0, "gather": 2.0, "cancel": 0.7}, "kinds": ["apply", "apply", "apply", "map"], "simple": 0.45},
+    "C03": {"w": {"cancel": 1.8, "cancel_group": 1.4, "stop": 1.5, "flush": 1.2}, "cb": ["s", "a", "g", "g", "sx", "sT", None]},
+    "C04": {"w": {"spawn": 1.5, "lock": 3.0, "gather": 2.0, "cancel": 0.7}, "kinds": ["apply", "apply", "apply", "map"], "simple": 0.45, "named": 0.35},
     "C05": {"w": {"spawn": 1.4, "cancel": 1.4, "gate": 1.3}, "kinds": ["map", "starmap", "doublestarmap", "map", "apply"], "simple": 0.0},
     "C06": {"w": {"cancel": 5.0, "flush": 1.5, "cancel_group": 0.6}, "stubborn": 0.35},
     "C07": {"w": {"cancel_group": 4.0, "cancel_all": 3.0, "spawn": 1.4}, "simple": 0.15},
@@ -33,7 +33,7 @@ PROFILES = {
     "C09": {"w": {"bad_spawn": 14.0, "lock": 5.0, "unlock": 4.0, "gather": 3.0, "spawn": 1.3}},
     "C10": {"w": {"spawn": 2.0, "cancel_group": 3.0, "cancel_all": 1.5}, "named": 0.5},
     "C11": {"w": {"spawn": 2.0, "flush": 2.0, "new_pool": 12.0, "gather": 4.0}, "pools": [1, 2, 2, 3]},
-    "C12": {"w": {"gate_x": 5.0, "gate_c": 4.0, "flush": 2.5, "gather": 3.0}, "cb": [None, "s", "sx", "ax", "gx", "a"], "fail": 0.4, "endx": 0.3, "retx": 0.2},
+    "C12": {"w": {"gate_x": 5.0, "gate_c": 4.0, "flush": 2.5, "gather": 3.0}, "cb": [None, "s", "sx", "ax", "gx", "a", "sT"], "fail": 0.4, "endx": 0.3, "retx": 0.2},
     "C13": {"w": {"flush": 7.0, "cancel": 2.0, "cancel_group": 1.5}, "cb": ["g", "g", "a", "s", None, "gx"]},
     "C14": {"w": {"stop": 8.0, "cancel": 2.0, "spawn": 1.5}, "simple": 1.0},
 }
@@ -67,6 +67,7 @@ class Gen:
         self.retx = self.prof.get("retx", rng.choice([0.0, 0.0, 0.1]))
         self.label = 0
         self.count = 0
+        self.own_iter_cancel = False
 
     # ------------------------------------------------------------------ configuration
     def make_config(self):
@@ -80,6 +81,8 @@ class Gen:
             p = {"cls": cls, "size": rng.choice(sizes)}
             if rng.random() < 0.4:
                 p["name"] = rng.choice(["alpha", "beta", "p"]) + str(i)
+            elif rng.random() < 0.15:
+                p["name"] = "jobs"          # the same explicit name may be given to several pools
             if cls == "S":
                 p["fk"] = rng.choice(["sync", "sync", "plain"])
                 p["fn"] = rng.randrange(3)
@@ -90,7 +93,10 @@ class Gen:
                 if p["fk"] == "sync" and rng.random() < self.fail_rate:
                     p["fail"] = sorted(rng.sample(range(12), rng.choice([1, 2])))
             pools.append(p)
-        return {"hmask": rng.choice([0, 0, 1, 3, 6, 7, 12, 21]), "pools": pools}
+        cfg = {"hmask": rng.choice([0, 0, 1, 3, 6, 7, 12, 21]), "pools": pools}
+        if rng.random() < 0.15:
+            cfg["loglevel"] = "DEBUG"
+        return cfg
 
     def _script(self):
         rng = self.rng
@@ -168,7 +174,8 @@ class Gen:
         st["ccb"] = rng.choice(self.cb_kinds)
         st["sc"] = [self._script() for _ in range(rng.choice([1, 2, 3]))]
         if rng.random() < self.named:
-            st["gn"] = rng.choice(["g1", "g2", "apply-work-group-0", "map-job-group-1"])
+            st["gn"] = rng.choice(["g1", "g2", "apply-work-group-0", "map-job-group-1", "apply-work-group-1",
+                                   "apply-job-group-1", "starmap-fetch_it-group-0", "start-group-1"])
         if kind == "apply":
             st["num"] = rng.choice([0, 1, 1, 2, 3, 4, 5, 8])
             st["ash"] = rng.randrange(4)
@@ -178,12 +185,15 @@ class Gen:
             n = rng.choice([0, 1, 2, 3, 4, 5, 7, 10])
             badp = rng.choice([0.0, 0.0, 0.15, 0.3]) if kind != "map" else 0.0
             emptyp = rng.choice([0.0, 0.0, 0.2])
-            st["elems"] = [1 if rng.random() < badp else (2 if rng.random() < emptyp else 0) for _ in range(n)]
+            oneshot = rng.choice([0.0, 0.0, 0.5]) if kind == "starmap" else 0.0
+            st["elems"] = [1 if rng.random() < badp else (2 if rng.random() < emptyp else (3 if rng.random() < oneshot else 0))
+                           for _ in range(n)]
             st["nc"] = rng.choice([1, 1, 2, 2, 3, 5])
             if st["fk"] == "sync" and rng.random() < self.fail_rate and n:
                 st["fail"] = sorted(rng.sample(range(n), min(n, rng.choice([1, 2]))))
         if bad == "notcoro":
             st["bad"] = "notcoro"
+            st["nck"] = rng.randrange(5)
         elif bad == "nc0" and kind != "apply":
             st["nc"] = rng.choice([0, -1])
         return st
@@ -259,6 +269,11 @@ class Gen:
                 refs.append(["raw", rng.choice([-1, -7, 999, 12345, len(pc.tasks), len(pc.tasks) + 1])])
         if rng.random() < 0.1 and refs:
             refs.append(refs[0])
+        if rng.random() < 0.04 and live:
+            # a very long id list (repeats allowed), optionally with one bad id at the very end
+            refs = [self._task_ref(rng.choice(live)) for _ in range(rng.choice([65, 70, 130]))]
+            if rng.random() < 0.7:
+                refs.append(["raw", rng.choice([-1, 999])] if not pc.tasks or rng.random() < 0.5 else self._task_ref(rng.choice(pc.tasks)))
         return {"op": "cancel", "p": pc.idx, "ids": refs}
 
     def _g_cancel_group(self, sim):
@@ -282,7 +297,7 @@ class Gen:
             return None
         if rng.random() < 0.15:
             return {"op": "stop", "p": pc.idx, "all": 1}
-        return {"op": "stop", "p": pc.idx, "n": rng.choice([-2, 0, 1, 1, 1, 2, 2, 3, 5, pc.n_run, pc.n_run + 2])}
+        return {"op": "stop", "p": pc.idx, "n": rng.choice([-2, 0, 1, 1, 1, 2, 2, 3, 5, pc.n_run, pc.n_run + 2, 2 ** 63, 10 ** 30])}
 
     def _g_flush(self, sim):
         return {"op": "flush", "p": self._pool(sim).idx, "rex": int(self.rng.random() < 0.4)}
